@@ -2,6 +2,7 @@
 mod backends;
 mod c05;
 mod c07;
+mod c07x;
 mod c08;
 mod c09;
 mod c10;
@@ -45,6 +46,23 @@ fn main() {
         return;
     }
     let mut check = vcommon::Check::new(&args);
+    // checks that build in shared directories under /verif/target are serialised across
+    // processes (two runs of them at once would overwrite each other's guest objects)
+    let group = match args.id.as_str() {
+        "C05" | "C06" | "C07" | "C08" | "C10" | "C11" | "C14" => Some("native"),
+        "C09" | "C12" | "C31" | "C32" | "C33" => Some(args.id.as_str()),
+        _ => None,
+    };
+    let _lock = group.map(|g| {
+        extern "C" {
+            fn flock(fd: i32, op: i32) -> i32;
+        }
+        let _ = std::fs::create_dir_all("/verif/target");
+        let f = std::fs::OpenOptions::new().create(true).write(true).truncate(false).open(format!("/verif/target/.lock-{g}")).unwrap_or_else(|e| vcommon::harness_error(format!("lock file: {e}")));
+        // LOCK_EX, blocking; released when the process exits
+        unsafe { flock(std::os::fd::AsRawFd::as_raw_fd(&f), 2) };
+        f
+    });
     match args.id.as_str() {
         "C05" | "C06" => c05::run(&mut check),
         "C07" => c07::run(&mut check),
